@@ -47,7 +47,11 @@ def classify(e):
     tb = traceback.extract_tb(e.__traceback__)
     kd = kyupy_dir()
     inner = [f for f in tb if os.path.abspath(f.filename).startswith(kd)]
-    if inner:
+    here = os.path.dirname(os.path.dirname(os.path.abspath(__file__)))
+    # the innermost frame that belongs to kyupy or to this harness decides (third-party frames below it are skipped): an exception raised
+    # by harness code that kyupy called back (callbacks, mock launchers) is a harness error, not kyupy's
+    own = [f for f in tb if os.path.abspath(f.filename).startswith(kd) or os.path.abspath(f.filename).startswith(here + os.sep)]
+    if inner and own and own[-1] is inner[-1]:
         f = inner[-1]
         return Violation(f'kyupy raised {type(e).__name__}: {str(e)[:200]} '
                          f'at {os.path.basename(f.filename)}:{f.lineno} ({f.name})')
